@@ -248,6 +248,29 @@ def r4(k: Kit) -> None:
     rep.check(okp, 'C02.R4', key(sp, 'packet layout'),
               'padding_length ‖ payload ‖ padding',
               'binary packet layout changed', sp.loc(sp.node))
+    # the length the padding is computed from is the length of the payload
+    # that is sent: same reaching definitions of `payload` at both places
+    pads = [(n, v) for n, v in k.stores_to(sp, 'padlen')
+            if v is not None and 'payload' in names_read(v)]
+    same = bool(pads) and bool(pk)
+    detail = ''
+    for pn, pv in pads:
+        for qn, qv in pk:
+            d1 = set(rd.defs_of(pn.id, 'payload'))
+            d2 = set(rd.defs_of(qn.id, 'payload'))
+            if d1 != d2:
+                same = False
+                detail = (f'padlen (line {pn.ast.lineno}) sees `payload` as '
+                          f'defined at lines {sorted(g.nodes[d].ast.lineno for d in d1 if d >= 0)}, '
+                          f'the packet (line {qn.ast.lineno}) is built from '
+                          f'the definition at lines {sorted(g.nodes[d].ast.lineno for d in d2 if d >= 0)}')
+    rep.check(same, 'C02.R4', key(sp, 'padding from the payload sent'),
+              'padding length computed from the payload that goes into the '
+              'packet',
+              'padding is computed from a different value of `payload` than '
+              'the one sent (e.g. before compression): the packet is no '
+              'longer a multiple of the cipher block size. ' + detail,
+              sp.loc(sp.node))
     # padding arithmetic over all residues
     frag = []
     for st in sp.node.body:
@@ -425,6 +448,86 @@ def r5(k: Kit) -> None:
               'received bytes are not simply appended', dr.loc(dr.node))
 
 
+def r6(k: Kit) -> None:
+    """AES-GCM nonce schedule (RFC 5647 §7.1): 4-byte fixed field kept,
+    8-byte invocation counter incremented modulo 2**64 after every packet
+    in either direction."""
+    rep = k.rep
+    idx = k.idx
+    rep.rule('C02.R6', 'AES-GCM nonce per RFC 5647 §7.1: GCMCipher._update_iv '
+             'keeps the 4-byte fixed field and adds 1 to the 8-byte '
+             'invocation counter modulo 2**64 (evaluated for every carry '
+             'position); both AEAD operations use self._iv as the nonce and '
+             'then advance it exactly once on every path, failed tag '
+             'included')
+    ui = k.func('crypto.cipher.GCMCipher._update_iv')
+    fixed = bytes([0xa1, 0xb2, 0xc3, 0xd4])
+    counters = sorted({0, 1, 0xfe, 0xff, 0x100, 0xffff, 0xffffff,
+                       0xfffffffe, 0xffffffff, 0x100000000, 0xffffffffff,
+                       2 ** 48 - 1, 2 ** 56 - 1, 2 ** 63, 2 ** 64 - 2,
+                       2 ** 64 - 1, 0x0102030405060708})
+    bad = None
+    for c in counters:
+        iv = fixed + c.to_bytes(8, 'big')
+        try:
+            o = evaluate(idx, ui.module, ui.node.body, {'self._iv': iv}, {},
+                         lambda nm, a, e: Obj('x'))
+        except NotEvaluable as exc:
+            rep.error('C02.R6', 'not-evaluable', str(exc))
+            return
+        new = o.env.get('self._iv')
+        if new is None:
+            new = dict(o.stores).get('self._iv') \
+                if not isinstance(o.stores, dict) else \
+                o.stores.get('self._iv')
+        want = fixed + ((c + 1) % 2 ** 64).to_bytes(8, 'big')
+        if o.kind == 'raise' or new != want:
+            bad = bad or (f'counter {c:#x}: next nonce is '
+                          f'{new.hex() if isinstance(new, bytes) else new} '
+                          f'({o.kind}), RFC 5647 requires {want.hex()}')
+    rep.count('eval.gcm_nonce_cases', len(counters))
+    rep.check(bad is None, 'C02.R6', key(ui, 'invocation counter'),
+              f'{len(counters)} carry classes: fixed field kept, 64-bit '
+              'counter + 1 mod 2**64',
+              f'{bad}: after that packet a conforming peer computes a '
+              'different nonce and every following packet fails its tag',
+              ui.loc(ui.node))
+    for name, op in (('encrypt_and_sign', 'encrypt'),
+                     ('verify_and_decrypt', 'decrypt')):
+        fi = k.func('crypto.cipher.GCMCipher.' + name)
+        g = k.cfg(fi)
+        ops = [(n, c) for n, c in k.calls_named(fi, op)
+               if c.args and dotted(c.args[0]) == 'self._iv']
+        rep.check(len(ops) == 1, 'C02.R6', key(fi, 'nonce is self._iv'),
+                  f'AESGCM.{op} is given self._iv as the nonce',
+                  f'AESGCM.{op} nonce is not the stateful self._iv',
+                  fi.loc(fi.node))
+        ups = [n.id for n, c in k.calls_named(fi, '_update_iv', 'self')]
+        w = g.path(g.entry, g.exit, blocked_nodes=set(ups),
+                   follow_exc=True) if ups else [g.entry]
+        # an update before the AEAD call would use the wrong nonce
+        early = None
+        for n, c in ops:
+            for u in ups:
+                if g.path(u, n.id, follow_exc=True) is not None:
+                    early = u
+        twice = None
+        for u in ups:
+            for v in ups:
+                if g.path(u, v, follow_exc=True) is not None and u != v:
+                    twice = (u, v)
+        rep.check(bool(ups) and w is None and early is None and
+                  twice is None, 'C02.R6', key(fi, 'advance once after use'),
+                  'the nonce advances exactly once after the AEAD call on '
+                  'every path',
+                  'the GCM nonce is ' + (
+                      'not advanced on some path (a failed tag must still '
+                      'advance it)' if w is not None or not ups else
+                      'advanced before it is used' if early is not None
+                      else 'advanced twice for one packet'),
+                  fi.loc(fi.node), g.describe_path(w) if w else None)
+
+
 def run(idx, rep, tier):
     k = Kit(idx, rep)
     rep.assumptions += NOT_DECIDED
@@ -438,3 +541,4 @@ def run(idx, rep, tier):
     from .c03 import r2 as c03r2
     r4(k)
     r5(k)
+    r6(k)
